@@ -333,6 +333,14 @@ pub fn run(tier: Tier) {
     } else {
         bit_flips::<V1024>(&mut ctx, seed_bytes(off), &format!("LE64({})", off), (0..256).step_by(16).collect());
     }
+    // seeds on which key generation takes its retry branches (first candidate does not fit the fixed-width
+    // encoding; longest run of rejected candidates): whatever is derived from the seed on a retry must still
+    // depend on every bit of it
+    bit_flips::<V512>(&mut ctx, seed_bytes(785), "LE64(785) [first candidate does not fit the encoding]", (0..256).collect());
+    bit_flips::<V1024>(&mut ctx, seed_bytes(14), "LE64(14) [first candidate does not fit the encoding]", if tier.thorough() { (0..256).collect() } else { (0..256).step_by(16).chain(248..256).collect() });
+    if let Some((s, k)) = long512.first() {
+        bit_flips::<V512>(&mut ctx, seed_bytes(*s), &format!("LE64({}) [at least {} rejected candidates]", s, k), if tier.thorough() { (0..256).collect() } else { (0..256).step_by(8).chain(248..256).collect() });
+    }
     crate::e5::run_part(&mut ctx, "keygen");
     if tier.thorough() {
         crate::e5::run_part(&mut ctx, "keygen3");
